@@ -90,8 +90,8 @@ theorem invert_spec {a r : Nat} (h : Group.invert a = some r) : r < L ∧ a * r 
 
 /-- In the field: the result is `a⁻¹`. -/
 theorem invert_cast {a r : Nat} (h : Group.invert a = some r) : ((r : Nat) : Fl) = ((a : Nat) : Fl)⁻¹ := by
-  obtain ⟨-, rfl, -, -⟩ := Dalek.Proofs.Group.invert_some h
-  exact cast_sinv a
+  obtain ⟨-, hr, -, -⟩ := Dalek.Proofs.Group.invert_some h
+  rw [hr]; exact cast_sinv a
 
 example : Group.invert 0 = none ∧ Group.invert L = none ∧ Group.invert 2 = some Group.TWO_INV := by
   decide +kernel
@@ -243,12 +243,14 @@ hypothesis because the group order is not part of this development), the result 
 theorem clear_cofactor_torsion_free {p : Pt} (hp : onCurve p = true)
     (h8l : (8 * L) • toEd p hp = 0) :
     isTorsionFree (Group.clearCofactor p) = true := by
-  rw [isTorsionFree_iff (onCurve_smul hp 8), clear_cofactor_eq hp, ← mul_nsmul, Nat.mul_comm]
+  unfold Group.clearCofactor
+  rw [isTorsionFree_iff (onCurve_smul hp 8), toEd_smul hp 8, ← mul_nsmul, Nat.mul_comm]
   exact h8l
 
-/-- The hypothesis of `clear_cofactor_torsion_free` is satisfiable (basepoint, and a point of order 8). -/
+/-- The hypothesis of `clear_cofactor_torsion_free` is satisfiable (basepoint). -/
 example : (8 * L) • toEd B onCurve_B = 0 := by
-  rw [Nat.mul_comm, mul_nsmul, (isTorsionFree_iff onCurve_B).1 (by decide +kernel), nsmul_zero]
+  rw [Nat.mul_comm, mul_nsmul]
+  exact (congrArg (fun Q => 8 • Q) L_nsmul_Bpt).trans (nsmul_zero 8)
 
 /-! ## 8. `is_torsion_free` agrees with `into_subgroup` and with `SubgroupPoint::from_bytes` -/
 
@@ -263,15 +265,34 @@ theorem subgroup_from_bytes_compress {p : Pt} (hp : onCurve p = true) (cp : Cano
     Group.subFromBytes (compress p) = Group.intoSubgroup p := by
   rw [Dalek.Proofs.Group.subFromBytes_eq, decompress_compress hp cp, Option.bind_some]
 
-/-- Both outcomes occur: the basepoint is in the prime-order subgroup, the 8-torsion generator is on the
-curve but is rejected (while plain `from_bytes` accepts it). -/
+/-- **Non-identity small-order points are rejected**: a canonical curve point with `8·p = 0`, `p ≠ 0`, is not
+torsion free, so `into_subgroup` returns `None` (`gcd(8, ℓ) = 1`). -/
+theorem into_subgroup_small_order {p : Pt} (hp : onCurve p = true) (cp : Canon p)
+    (h8 : isSmallOrder p = true) (hne : p ≠ Pt.zero) :
+    isTorsionFree p = false ∧ Group.intoSubgroup p = none := by
+  have h := Dalek.Proofs.Group.not_torsionFree_of_smallOrder hp cp h8 hne
+  refine ⟨h, ?_⟩
+  unfold Group.intoSubgroup
+  rw [h]; rfl
+
+/-- Both outcomes occur: the basepoint is in the prime-order subgroup … -/
+example : Group.intoSubgroup B = some B ∧ Group.subFromBytes (compress B) = some B := by
+  have h : Group.intoSubgroup B = some B :=
+    (Dalek.Proofs.Group.intoSubgroup_eq_some_iff B B).2 ⟨rfl, Dalek.Proofs.Group.isTorsionFree_B⟩
+  exact ⟨h, (subgroup_from_bytes_compress onCurve_B canon_B).trans h⟩
+
+/-- … and the 8-torsion generator `EIGHT_TORSION[1]` is on the curve but is rejected (while plain
+`from_bytes` accepts it). -/
 example :
-    Group.intoSubgroup B = some B ∧ Group.subFromBytes (compress B) = some B ∧
-    onCurve (eightTorsion.getD 1 Pt.zero) = true ∧
     Group.intoSubgroup (eightTorsion.getD 1 Pt.zero) = none ∧
     Group.subFromBytes (compress (eightTorsion.getD 1 Pt.zero)) = none ∧
     Group.edFromBytes (compress (eightTorsion.getD 1 Pt.zero)) = some (eightTorsion.getD 1 Pt.zero) := by
-  decide +kernel
+  have hp : onCurve (eightTorsion.getD 1 Pt.zero) = true := by decide +kernel
+  have cp : Canon (eightTorsion.getD 1 Pt.zero) := by decide +kernel
+  have h8 : isSmallOrder (eightTorsion.getD 1 Pt.zero) = true := by decide +kernel
+  have hne : eightTorsion.getD 1 Pt.zero ≠ Pt.zero := by decide +kernel
+  have h := (into_subgroup_small_order hp cp h8 hne).2
+  exact ⟨h, (subgroup_from_bytes_compress hp cp).trans h, ed_from_bytes_compress hp cp⟩
 
 /-! ## 9. The extended-coordinate code that the driver executes
 
@@ -310,7 +331,7 @@ example {b : List UInt8} {e : EPt} (h : EPt.decompress b = some e) : e.Valid := 
 
 /-! ## Axiom audit -/
 
-/-- info: 'Dalek.Props.C17.model_constants_eq_source' depends on axioms: [propext] -/
+/-- info: 'Dalek.Props.C17.model_constants_eq_source' depends on axioms: [propext, Classical.choice, Quot.sound] -/
 #guard_msgs in #print axioms model_constants_eq_source
 
 /-- info: 'Dalek.Props.C17.sqrt_spec' depends on axioms: [propext, Classical.choice, Quot.sound] -/
@@ -325,7 +346,7 @@ example {b : List UInt8} {e : EPt} (h : EPt.decompress b = some e) : e.Valid := 
 /-- info: 'Dalek.Props.C17.sqrt_isSome_iff_nat' depends on axioms: [propext, Classical.choice, Quot.sound] -/
 #guard_msgs in #print axioms sqrt_isSome_iff_nat
 
-/-- info: 'Dalek.Props.C17.sqrt_mod' depends on axioms: [propext, Classical.choice, Quot.sound] -/
+/-- info: 'Dalek.Props.C17.sqrt_mod' depends on axioms: [propext] -/
 #guard_msgs in #print axioms sqrt_mod
 
 /-- info: 'Dalek.Props.C17.invert_none_iff_zero' depends on axioms: [propext, Classical.choice, Quot.sound] -/
@@ -340,19 +361,19 @@ example {b : List UInt8} {e : EPt} (h : EPt.decompress b = some e) : e.Valid := 
 /-- info: 'Dalek.Props.C17.sqrt_ratio_spec' depends on axioms: [propext, Classical.choice, Quot.sound] -/
 #guard_msgs in #print axioms sqrt_ratio_spec
 
-/-- info: 'Dalek.Props.C17.from_repr_iff_canonical' depends on axioms: [propext, Classical.choice, Quot.sound] -/
+/-- info: 'Dalek.Props.C17.from_repr_iff_canonical' depends on axioms: [propext, Quot.sound] -/
 #guard_msgs in #print axioms from_repr_iff_canonical
 
-/-- info: 'Dalek.Props.C17.from_repr_isSome_iff' depends on axioms: [propext, Classical.choice, Quot.sound] -/
+/-- info: 'Dalek.Props.C17.from_repr_isSome_iff' does not depend on any axioms -/
 #guard_msgs in #print axioms from_repr_isSome_iff
 
 /-- info: 'Dalek.Props.C17.from_repr_to_repr' depends on axioms: [propext, Classical.choice, Quot.sound] -/
 #guard_msgs in #print axioms from_repr_to_repr
 
-/-- info: 'Dalek.Props.C17.to_repr_from_repr' depends on axioms: [propext, Classical.choice, Quot.sound] -/
+/-- info: 'Dalek.Props.C17.to_repr_from_repr' depends on axioms: [propext, Quot.sound] -/
 #guard_msgs in #print axioms to_repr_from_repr
 
-/-- info: 'Dalek.Props.C17.encoding_eq_compress' does not depend on any axioms -/
+/-- info: 'Dalek.Props.C17.encoding_eq_compress' depends on axioms: [propext] -/
 #guard_msgs in #print axioms encoding_eq_compress
 
 /-- info: 'Dalek.Props.C17.ed_from_bytes_compress' depends on axioms: [propext, Classical.choice, Quot.sound] -/
@@ -367,19 +388,19 @@ example {b : List UInt8} {e : EPt} (h : EPt.decompress b = some e) : e.Valid := 
 /-- info: 'Dalek.Props.C17.subgroup_from_bytes_iff' depends on axioms: [propext, Classical.choice, Quot.sound] -/
 #guard_msgs in #print axioms subgroup_from_bytes_iff
 
-/-- info: 'Dalek.Props.C17.subgroup_from_bytes_iff'' depends on axioms: [propext, Classical.choice, Quot.sound] -/
+/-- info: 'Dalek.Props.C17.subgroup_from_bytes_iff'' depends on axioms: [propext, Quot.sound] -/
 #guard_msgs in #print axioms subgroup_from_bytes_iff'
 
 /-- info: 'Dalek.Props.C17.subgroup_from_bytes_isSome_iff' depends on axioms: [propext, Classical.choice, Quot.sound] -/
 #guard_msgs in #print axioms subgroup_from_bytes_isSome_iff
 
-/-- info: 'Dalek.Props.C17.subgroup_from_bytes_eq' depends on axioms: [propext, Classical.choice, Quot.sound] -/
+/-- info: 'Dalek.Props.C17.subgroup_from_bytes_eq' depends on axioms: [propext, Quot.sound] -/
 #guard_msgs in #print axioms subgroup_from_bytes_eq
 
 /-- info: 'Dalek.Props.C17.into_subgroup_iff' depends on axioms: [propext, Classical.choice, Quot.sound] -/
 #guard_msgs in #print axioms into_subgroup_iff
 
-/-- info: 'Dalek.Props.C17.into_subgroup_some' depends on axioms: [propext, Classical.choice, Quot.sound] -/
+/-- info: 'Dalek.Props.C17.into_subgroup_some' does not depend on any axioms -/
 #guard_msgs in #print axioms into_subgroup_some
 
 /-- info: 'Dalek.Props.C17.into_subgroup_eq_some_iff' depends on axioms: [propext, Classical.choice, Quot.sound] -/
@@ -399,6 +420,9 @@ example {b : List UInt8} {e : EPt} (h : EPt.decompress b = some e) : e.Valid := 
 
 /-- info: 'Dalek.Props.C17.is_torsion_free_agreement' depends on axioms: [propext, Classical.choice, Quot.sound] -/
 #guard_msgs in #print axioms is_torsion_free_agreement
+
+/-- info: 'Dalek.Props.C17.into_subgroup_small_order' depends on axioms: [propext, Classical.choice, Quot.sound] -/
+#guard_msgs in #print axioms into_subgroup_small_order
 
 /-- info: 'Dalek.Props.C17.subgroup_from_bytes_compress' depends on axioms: [propext, Classical.choice, Quot.sound] -/
 #guard_msgs in #print axioms subgroup_from_bytes_compress
